@@ -75,6 +75,10 @@ fn member(g: &mut G, has_base: bool) -> Value {
             } else {
                 k
             };
+            // tuple-form arrays whose item lists differ in length (array item schemas)
+            if g.chance(1, 3) {
+                return tuple_member(g.below(4));
+            }
             match k {
                 3 => json!({"type": "object", "properties": {"a": {"type": "number"}}}),
                 4 => json!({"type": "object", "properties": {"b": {"type": "string", "maxLength": 20}}}),
@@ -86,6 +90,18 @@ fn member(g: &mut G, has_base: bool) -> Value {
         3 => json!({"type": "object", "properties": {"d": {"type": "array", "items": {"type": "integer"}}}, "required": ["d"]}),
         _ => nested_one_of(),
     }
+}
+
+/// object members constraining the same tuple-typed property `t` with item lists of
+/// different length (the shorter one constrains the tail through additionalItems)
+fn tuple_member(k: usize) -> Value {
+    let t = match k {
+        0 => json!({"type": "array", "items": [{"type": "string"}], "additionalItems": {"type": "integer"}, "minItems": 3, "maxItems": 3}),
+        1 => json!({"type": "array", "items": [{"type": "string"}, {}, {}], "minItems": 3, "maxItems": 3}),
+        2 => json!({"type": "array", "items": [{"type": "string"}, {"type": "integer"}], "additionalItems": {"type": "integer"}, "minItems": 3, "maxItems": 3}),
+        _ => json!({"type": "array", "items": [{}, {}, {"type": "integer"}], "minItems": 3, "maxItems": 3}),
+    };
+    json!({"type": "object", "properties": {"t": t}, "required": ["t"]})
 }
 
 /// a nested oneOf whose branches are disjoint (each requires its own key and
@@ -160,6 +176,15 @@ pub fn gen_c09_case(g: &mut G) -> Value {
     let base = if unsat { json!({"type": "object", "properties": {"a": {"type": "integer"}}, "required": ["a"], "additionalProperties": false}) } else { object_member(g) };
     let members: Vec<Value> = if unsat {
         unsat_members(g)
+    } else if g.chance(1, 5) {
+        // array item schemas: two or three members constraining the same tuple-typed property
+        let mut ks = vec![0usize, 1, 2, 3];
+        g.shuffle(&mut ks);
+        let mut v: Vec<Value> = ks.into_iter().take(2 + g.below(2)).map(tuple_member).collect();
+        if g.chance(1, 3) {
+            v.push(object_member(g));
+        }
+        v
     } else {
         let n = 2 + g.below(3);
         (0..n).map(|_| member(g, true)).collect()
@@ -274,7 +299,8 @@ impl Property for C09 {
         };
         obj_ok(&c["base"])
             && members.iter().all(|m| {
-                m == &json!({"$ref": "#/definitions/Base"})
+                (0..4).any(|k| m == &tuple_member(k))
+                    || m == &json!({"$ref": "#/definitions/Base"})
                     || m == &json!({"type": "string"})
                     || obj_ok(m)
                     || m == &nested_one_of()
